@@ -8,8 +8,11 @@ command lines with TWO OR THREE arguments in every order, each in repository A (
 zeta) or in no repository (pol-draft, drafts) -- names that share string prefixes and names that do not --, every place with
 its own project-root declaration (none, .manifest, .regal/, .regal.yaml, project.roots, .regal/ above the argument) and its
 own state; relative arguments that lead out of the repository of the working directory (cd pol && regal fix ../pol-draft);
-files inside git submodules (absorbed: .git file; not absorbed: .git directory, predicate only) -- all run through the real
-binary WITHOUT --force.
+files inside git submodules (absorbed: .git file; not absorbed: .git directory, predicate only); submodules whose NAME is not
+their path (git submodule add --name, git mv), nested submodules, registered submodules that are not checked out; a writer that
+changes files WHILE the command runs, at a moment the command itself fixes (blocked opening a named pipe among its input files;
+blocked writing its --debug output into a full pipe during the first lint run; predicate only); a tracked link to a file outside
+of the work tree (predicate only) -- all run through the real binary WITHOUT --force.
   * correspondence: the model (find_git_repo over the tree + the gate over go-git's status keys, obtained through regal's own
     GetChangedFiles in an overlay test) must predict the verdict and the tree after the run;
   * predicate on the implementation alone: every file whose bytes changed or disappeared was restorable from HEAD of its
@@ -60,7 +63,10 @@ def modelled(r):
     Worktree.Status of the superproject fails on the first call ("open sub/.git: is a directory") and creates
     .git/modules/<name> on the way, after which it succeeds -- what the status oracle answers depends on how often it was asked"""
     ws = r['ws']
-    return not ws.get('symlinks') and 'dir' not in ((ws.get('git') or {}).get('submodules') or {}).values()
+    # a concurrent writer: the model has one tree per run (the status oracle is asked about the tree the overlay test saw,
+    # before the edit); those runs go through the predicate, whose `before` is the tree right after the writer's edit
+    return (not ws.get('symlinks') and 'dir' not in ((ws.get('git') or {}).get('submodules') or {}).values()
+            and not ws.get('concurrent'))
 
 
 def predicate(r):
@@ -76,13 +82,19 @@ def predicate(r):
             if after['files'].get(rel) != txt and not r['restorable'].get(rel, False):
                 st = ((ws.get('git') or {}).get('states') or {}).get(rel)
                 if ws.get('symlinks'):
-                    st = 'reached-through-symlink-inside-worktree'
+                    # the file that changed lies below the work tree of the arguments (reached under a second name), or not
+                    # even there (a link to a file elsewhere: the command wrote THROUGH the link)
+                    inside = any(c13.contains(d, rel) and any(c13.contains(d, a) for a in ws['args'])
+                                 for d in ((ws.get('git') or {}).get('repo_dirs') or []))
+                    st = 'reached-through-symlink-inside-worktree' if inside else 'reached-through-symlink-leaving-worktree'
                 elif not (ws.get('git') or {}).get('repo_dirs'):
                     st = 'no-repository'
                 elif st is None:
                     st = 'outside-repository' if not any(c13.contains(d, rel) for d in ws['git']['repo_dirs']) else 'clean?'
                 if not ws.get('symlinks') and any(c13.contains(d, rel) for d in ((ws.get('git') or {}).get('submodules') or {})):
                     st = '%s/inside-submodule' % st
+                if ws.get('concurrent'):
+                    st = ('saved-while-the-command-ran' if rel in ws['concurrent'].get('edits', {}) else st) + '/' + ws['concurrent']['mode']
                 bad.append(('changed-unrestorable-file', st))
     return bad
 
@@ -164,7 +176,7 @@ def run(ctx):
     for i, r in enumerate(results):
         for kind, detail in predicate(r):
             pred_hits['%s:%s' % (kind, detail)] = pred_hits.get('%s:%s' % (kind, detail), 0) + 1
-            if nviol >= 3 and not (kind == 'changed-unrestorable-file' and detail in ('ignored', 'reached-through-symlink-inside-worktree')):
+            if nviol >= 3 and not (kind == 'changed-unrestorable-file' and detail in ('ignored', 'reached-through-symlink-inside-worktree', 'reached-through-symlink-leaving-worktree')):
                 continue
             raised = vlib.violation(ctx, {'kind': kind, 'detail': detail, 'case': {'ws': r['ws']}, 'cmd': r['cmd'], 'cwd': r['cwd'], 'exit': r['exit'],
                                           'reached': ({'link': '<workspace>/link -> real; every path of the command goes through the link; the work tree is <workspace>/real',
@@ -172,6 +184,14 @@ def run(ctx):
                                                                       'the work tree is <workspace>/real/mid'}.get(r['ws'].get('via') or '', 'by its real path')
                                                       + ('; symbolic links inside the work tree: %r' % r['ws']['symlinks'] if r['ws'].get('symlinks') else '')),
                                           'find_git_repo': gits[i]['repo'],
+                                          'concurrent_writer': (None if not r['ws'].get('concurrent') else
+                                                                {'moment_reached': bool(r.get('applied')),
+                                                                 'how': {'fifo': 'the path `fifo` is a named pipe: the command blocks opening it while it reads its input files '
+                                                                                 '(sorted order); exactly then the writer stores `edits` and releases the pipe',
+                                                                         'debug': 'the command runs with --debug on a 4 KiB stderr pipe; when the trigger line shows up the writer stops '
+                                                                                  'reading (the command waits in write(2) during its first lint run), stores `edits`, reads on'}
+                                                                 [r['ws']['concurrent']['mode']],
+                                                                 'tree_before_the_edit': (r.get('pre_edit') or {}).get('files')}),
                                           'stderr': r['stderr'][:400], 'porcelain': r.get('porcelain'),
                                           'changed': sorted(p for p, t in r['before']['files'].items() if r['after']['files'].get(p) != t),
                                           'what': 'regal fix without --force changed a file that git cannot restore' if kind == 'changed-unrestorable-file'
@@ -190,7 +210,8 @@ def run(ctx):
 
     distinct = len({json.dumps([r['ws']['files'], r['ws'].get('git'), r['ws']['args'], r['ws'].get('cwd'), r['ws']['abs_args'],
                                 r['ws'].get('no_force'), r['ws']['dry_run'], r['ws']['policy'], r['ws'].get('via'), r['ws'].get('symlinks'),
-                                r['ws'].get('regal_dirs'), r['ws'].get('manifests'), r['ws'].get('cfg_roots'), r['ws'].get('extra')],
+                                r['ws'].get('regal_dirs'), r['ws'].get('manifests'), r['ws'].get('cfg_roots'), r['ws'].get('extra'),
+                                r['ws'].get('concurrent')],
                                sort_keys=True) for r in results})
     reach = {}
     for r in results:
@@ -199,7 +220,10 @@ def run(ctx):
     fam, nargs = {}, {}
     for r in results:
         k = r['ws']['name'].split('/')[0].rstrip('0123456789')
-        k = k if k in ('multi', 'rel-outside', 'submodule-file', 'submodule-dir', 'rand', 'rand-multi', 'regression', 'known') else 'single-target'
+        if k.startswith('submodule-') and k not in ('submodule-file', 'submodule-dir'):
+            k = 'submodule-name/nesting'
+        k = k if k in ('multi', 'rel-outside', 'submodule-file', 'submodule-dir', 'submodule-name/nesting', 'concurrent-fifo', 'concurrent-debug',
+                       'rand', 'rand-multi', 'regression', 'known') else 'single-target'
         fam[k] = fam.get(k, 0) + 1
         nargs[str(len(r['ws']['args']))] = nargs.get(str(len(r['ws']['args'])), 0) + 1
     cov = proof_coverage(ctx, {
@@ -210,6 +234,9 @@ def run(ctx):
         'runs': len(results), 'runs_compared_with_model': len(mod_ix), 'reached_through': reach,
         'scenario_families': fam, 'command_lines_by_number_of_arguments': nargs, 'outcome_histogram': hist, 'mismatch_find_git_repo': len(g1), 'mismatch_verdict_or_tree': len(g2),
         'predicate_hits': pred_hits,
+        'concurrent_writer_runs': sum(1 for r in results if r['ws'].get('concurrent')),
+        'concurrent_writer_moment_reached': sum(1 for r in results if r['ws'].get('concurrent') and r.get('applied')),
+        'concurrent_writer_refused': sum(1 for r in results if r['ws'].get('concurrent') and r.get('applied') and r['exit'] != 0),
         'samples': [{'name': r['ws']['name'], 'cmd': r['cmd'], 'exit': r['exit'], 'repo': g['repo'], 'status': g['status'], 'porcelain': r.get('porcelain')}
                     for r, g in list(zip(results, gits))[:3]],
         'exhaustive': False,
@@ -220,4 +247,6 @@ def run(ctx):
         "go-git's status computation is an oracle: the key set returned by regal's GetChangedFiles is taken as given (it omits ignored files)",
         'os.Stat/filepath functions are modelled (Base/PathModel.v, Model/Commit.v fs_stat), validated by this correspondence only',
         'restorability is judged with the git CLI (git show HEAD:path) before the run',
+        'runs with a concurrent writer go through the predicate only (before := the tree right after the edit; what the writer stored is not '
+        'restorable): the status oracle is recorded on the tree before the edit, so the model is not asked about them',
     ])
